@@ -72,6 +72,31 @@ class Lock:
         self.f.close()
 
 
+NSLOTS = max(1, int(os.environ.get("VERIF_JOBS", "12")))
+
+
+class Slot:
+    """One of NSLOTS machine-wide slots (flock on build/.slot-<i>.lock), so that many checks running at
+    once do not start hundreds of coqc processes."""
+    def __enter__(self):
+        os.makedirs(BUILD, exist_ok=True)
+        root_build = os.path.join(ROOT, "build")
+        while True:
+            for i in range(NSLOTS):
+                f = open(os.path.join(root_build, ".slot-%d.lock" % i), "w")
+                try:
+                    fcntl.flock(f, fcntl.LOCK_EX | fcntl.LOCK_NB)
+                    self.f = f
+                    return self
+                except OSError:
+                    f.close()
+            time.sleep(0.2)
+
+    def __exit__(self, *a):
+        fcntl.flock(self.f, fcntl.LOCK_UN)
+        self.f.close()
+
+
 def load_cfg(pid):
     with open(os.path.join(ROOT, "props", pid + ".json")) as f:
         return json.load(f)
@@ -328,6 +353,20 @@ def run_check(pid, tier, seed, replay=None):
                 else:
                     assumptions_seen = parse_assumptions(out2)
                     open(os.path.join(rundir, "assumptions.log"), "w").write(out2)
+        # 2b. thorough tier: independent re-check of the compiled property file with coqchk
+        if tier == "thorough" and rc == 0 and cfg.get("props_file") and os.environ.get("VERIF_COQCHK", "1") != "0":
+            mod = "V." + cfg["props_file"][:-2].replace("/", ".")
+            rc3, out3, dt3 = sh(["coqchk", "-silent", "-o", "-R", COQ, "V", mod], cwd=COQ,
+                                timeout=int(tcfg.get("coqchk_timeout", 2400)))
+            checker_cmds.append("coqchk -silent -o -R coq V %s" % mod)
+            open(os.path.join(rundir, "coqchk.log"), "w").write(out3)
+            if rc3 == 124:
+                notes.append("coqchk on %s did not finish within its time limit (%.0fs); kernel result stands" % (mod, dt3))
+            elif rc3 != 0:
+                problems.append("coqchk rejects %s:\n%s" % (mod, out3[-1500:]))
+            else:
+                m3 = re.search(r"CONTEXT SUMMARY(.*)", out3, re.S)
+                notes.append("coqchk %s ok in %.0fs: %s" % (mod, dt3, re.sub(r"\s+", " ", (m3.group(1) if m3 else out3)[-900:]).strip()))
         # 3. harness build (from /repo's working tree)
         hbin = None
         if cfg.get("harness"):
@@ -352,16 +391,20 @@ def run_check(pid, tier, seed, replay=None):
             harness_res = json.load(open(rp))
         # 5. evaluate the model on the same cases
         cfiles = sorted(glob.glob(os.path.join(rundir, "cases_*.v")))
-        procs = []
-        for cf in cfiles:
-            procs.append((cf, subprocess.Popen(["sh", "-c", "ulimit -s unlimited 2>/dev/null || ulimit -s 4000000 2>/dev/null; exec \"$@\"", "sh",
-                                                "timeout", str(int(tcfg.get("cases_timeout", 900))), "coqc"] + COQFLAGS + [cf],
-                                               cwd=rundir, stdout=subprocess.PIPE, stderr=subprocess.STDOUT, text=True)))
-        for cf, p in procs:
-            out, _ = p.communicate()
+        # at most VERIF_JOBS model evaluations at a time across ALL running checks (global slot files)
+        import concurrent.futures
+        def run_cases(cf):
+            with Slot():
+                p = subprocess.run(["sh", "-c", "ulimit -s unlimited 2>/dev/null || ulimit -s 4000000 2>/dev/null; exec \"$@\"", "sh",
+                                    "timeout", str(int(tcfg.get("cases_timeout", 900))), "coqc"] + COQFLAGS + [cf],
+                                   cwd=rundir, stdout=subprocess.PIPE, stderr=subprocess.STDOUT, text=True)
+            return cf, p.returncode, p.stdout
+        with concurrent.futures.ThreadPoolExecutor(max_workers=NSLOTS) as ex:
+            results = list(ex.map(run_cases, cfiles))
+        for cf, prc, out in results:
             body, txt = parse_mismatches(out)
             checker_cmds.append("coqc -R coq V " + os.path.relpath(cf, ROOT) + "  (vm_compute model vs implementation)")
-            if p.returncode != 0 or body is None:
+            if prc != 0 or body is None:
                 problems.append("model evaluation of %s failed:\n%s" % (os.path.basename(cf), out[-2000:]))
             elif body not in ("[]", "nil", "[ ]"):
                 mismatch_cases.append((os.path.basename(cf), body))
